@@ -92,6 +92,17 @@ CLAIMED = {
          "symbolic; 1 character quick, 2-3 characters thorough), against a reference reader written from doc/syntax.rst.",
          "NOT covered: the lexer and parser as wholes (any byte string reaching flex/bison: never crashes, hangs, aborts), libzwerg-dw.cc entry "
          "points, the CLI's exit status (DESIGN 0.4/7). strtoull is a model (stubs/cxxrt.c); the parser/builder/operator behind the API are stubs.", '0.3'),
+ 'C15': ("Kernels only. (a) The compile-time tree simplification changes no result: for EVERY tree of at most 5 (quick) / 6 (thorough) nodes over the "
+         "constructs tree::simplify rewrites -- CAT and ALT nodes of 1..3 children, NOP, token-pushing leaves (518 / 2822 shapes; leaf tokens symbolic) "
+         "-- the denotation of the tree (the ordered list of token sequences it pushes: a leaf pushes its token, NOP passes, CAT feeds every result of a "
+         "child to the next, ALT yields its branches' results in order) is exactly the same after simplify () as before, through the real tree.cc "
+         "(CAT/ALT flattening, single-child promotion, NOP removal, with the tree copy / assignment / swap they use). (b) Escape sequences denote the "
+         "bytes the documentation says, numeric part: the lexer's parse_esc_num (lexer.ll, flex output regenerated at check time) returns, for every "
+         "\\NNN its <STRING> rule admits (first digit 0..3, one to three octal digits) and every \\xHH, the byte with that value, never rejects one and "
+         "never trips its assertions.",
+         "NOT covered: everything the lexer and parser do -- whitespace and comments, redundant parentheses, string continuation, raw strings, the "
+         "single-character escapes, %s %d %x %o %b expansion, E?, if-then-else, ?(E), infix operators -- and the FORMAT(STR) -> STR rewrite; the flex and "
+         "bison automata are not encoded (DESIGN 0.4).", '0.3'),
  'C16': ("coverage.cc as one inductive step from an arbitrary canonical pre-state of K runs: add/remove/is_covered/is_overlap/intersect/operator+,-,== "
          "against a membership oracle with a symbolic probe address, INV (ascending, disjoint, non-adjacent, non-empty) proved inductive; all values "
          "symbolic inside a 2^6 (quick) / 2^8 (thorough) window placed at 0, around 2^32, around 2^63 and just below 2^64-1; K<=2-3 quick, 3-4 thorough.",
@@ -136,7 +147,6 @@ NA = {
  'C05': "needs the libdw contract model plus import chains of shared_ptr; not reached (DESIGN 7)",
  'C06': "needs the libdw contract model and attribute_producer's vector/scheduling heap; not reached (DESIGN 7)",
  'C10': "op_tr_closure keeps a std::set<shared_ptr<stack>> ordered by value comparison: control depends on symbolic data, and CBMC's symbolic execution of merged C++ heap states did not terminate (DESIGN 2.5)",
- 'C15': "needs lexer/parser and execution of both sides; tree::simplify over vector<tree> not reached (DESIGN 7)",
  'C19': "main() of the CLI is a 400-line monolith behind getopt/iostream/file I/O; the observables are the effects of those externals (DESIGN 7)",
 }
 
